@@ -9,7 +9,11 @@
  * before the group starts: it waits at the barrier and calls
  * ovni_thread_free() at the moment the K others call ovni_thread_init().
  *
- * usage: churndrv <rounds> <K> <N> [overlap]     (OVNI_TRACEDIR must be set)
+ * With "pipeline" there is no lone thread: the K threads of round r are freed at
+ * the very moment the K threads of round r+1 initialise (one barrier per round
+ * boundary, shared by both groups).
+ *
+ * usage: churndrv <rounds> <K> <N> [overlap|pipeline]     (OVNI_TRACEDIR must be set)
  * prints: CHURN-DONE rounds=<r> threads=<t>
  */
 #include <pthread.h>
@@ -23,6 +27,58 @@ static pthread_barrier_t bar;
 static int nev, overlap;
 
 struct arg { int tid; int use_barrier; int free_at_barrier; };
+
+struct parg { int tid; pthread_barrier_t *start, *end; };
+
+static void *
+pipelife(void *p)
+{
+	struct parg *a = p;
+	pthread_barrier_wait(a->start);
+	ovni_thread_init(a->tid);
+	for (int i = 0; i < nev; i++) {
+		struct ovni_ev ev;
+		memset(&ev, 0, sizeof(ev));
+		ovni_ev_set_clock(&ev, ovni_clock_now());
+		ovni_ev_set_mcv(&ev, "UUU");
+		uint32_t pl[2] = { (uint32_t) a->tid, (uint32_t) i };
+		ovni_payload_add(&ev, (uint8_t *) pl, sizeof(pl));
+		ovni_ev_emit(&ev);
+	}
+	ovni_flush();
+	pthread_barrier_wait(a->end);
+	ovni_thread_free();
+	return NULL;
+}
+
+static int
+pipeline(int rounds, int k)
+{
+	if (rounds < 1 || rounds > 400)
+		return 98;
+	pthread_barrier_t *bars = calloc((size_t) rounds + 1, sizeof(*bars));
+	pthread_t *th = calloc((size_t) (rounds * k), sizeof(*th));
+	struct parg *args = calloc((size_t) (rounds * k), sizeof(*args));
+	if (!bars || !th || !args)
+		return 98;
+	for (int r = 0; r <= rounds; r++)
+		pthread_barrier_init(&bars[r], NULL, (unsigned) ((r == 0 || r == rounds) ? k : 2 * k));
+	ovni_proc_init(1, "churn", 4321);
+	int tid = 10000;
+	for (int r = 0; r < rounds; r++) {
+		for (int i = 0; i < k; i++) {
+			struct parg *a = &args[r * k + i];
+			a->tid = tid++; a->start = &bars[r]; a->end = &bars[r + 1];
+			if (pthread_create(&th[r * k + i], NULL, pipelife, a) != 0)
+				return 98;
+		}
+	}
+	for (int i = 0; i < rounds * k; i++)
+		pthread_join(th[i], NULL);
+	ovni_proc_fini();
+	printf("CHURN-DONE rounds=%d threads=%d\n", rounds, rounds * k);
+	return 0;
+}
 
 static void *
 life(void *p)
@@ -52,11 +108,13 @@ main(int argc, char *argv[])
 {
 	if (argc != 4 && argc != 5)
 		return 98;
-	overlap = argc == 5;
+	overlap = argc == 5 && strcmp(argv[4], "overlap") == 0;
 	int rounds = atoi(argv[1]), k = atoi(argv[2]);
 	nev = atoi(argv[3]);
 	if (k < 1 || k > 64)
 		return 98;
+	if (argc == 5 && strcmp(argv[4], "pipeline") == 0)
+		return pipeline(rounds, k);
 	ovni_proc_init(1, "churn", 4321);
 	int tid = 10000, total = 0;
 	for (int r = 0; r < rounds; r++) {
